@@ -1,10 +1,12 @@
 (* C20 — model of the built-in registered types of jsonargparse/typing.py whose conversion is
-   jsonargparse's own code: range (range_serializer / range_deserializer), datetime.timedelta
-   (str(timedelta) / timedelta_deserializer), SecretStr, decimal.Decimal (serialised with float).
-   The regular expressions of the source are transcribed as the deterministic scanners they
-   denote (every repetition is followed by a character outside its class, so greedy matching never
-   backtracks); Gen/C20Regexes.v carries the translated patterns and the judge cross-checks
-   acceptance per case. \d is ASCII here (domain: no non-ASCII decimal digits in inputs). *)
+   jsonargparse's own code: the registry lookup, range (range_serializer / range_deserializer),
+   datetime.timedelta (str(timedelta) / timedelta_deserializer), SecretStr, decimal.Decimal (both the
+   registration of the tree — serialised with float — and the repaired one of
+   fixes/C20-decimal-via-float.patch). The regular expressions of the source are transcribed as the
+   deterministic scanners they denote; Gen/C20Regexes.v carries the translated patterns and
+   Proofs/C20RangeRegexProofs.v / C20TdRegexProofs.v prove that patterns and scanners accept the same
+   texts (the judge cross-checks it per case as well). \d is ASCII here (domain: no non-ASCII decimal
+   digits in inputs). *)
 From JV Require Import Lib.Base Lib.C20Text Model.C20Base.
 Local Open Scope Z_scope.
 
